@@ -409,6 +409,20 @@ fn case(m: &mut Mon, r: &mut Rng, _idx: u64) {
                         _ => { forms6!(v, a, b, %, %=); v.push(("context", catch(|| ctx.rem(a.repr(), b.repr()).value().show()))); }
                     }
                     agree(&v, &format!("fbig {}", fname))?;
+                    // the iterator folds are forms of + and *
+                    if fop == 0 || fop == 2 {
+                        let mut v: Forms = vec![];
+                        if fop == 0 {
+                            v.push(("operator", catch(|| (&a + &b).show())));
+                            v.push(("sum_values", catch(|| [a.clone(), b.clone()].into_iter().sum::<F>().show())));
+                            v.push(("sum_refs", catch(|| [&a, &b].into_iter().sum::<F>().show())));
+                        } else {
+                            v.push(("operator", catch(|| (&a * &b).show())));
+                            v.push(("product_values", catch(|| [a.clone(), b.clone()].into_iter().product::<F>().show())));
+                            v.push(("product_refs", catch(|| [&a, &b].into_iter().product::<F>().show())));
+                        }
+                        agree(&v, &format!("fbig {} through an iterator", fname))?;
+                    }
                     // integer operands
                     let mut v: Forms = vec![];
                     match fop {
